@@ -200,8 +200,11 @@ package dns
 //@   loop 1 invariant old(off) <= off && end <= len(msg) && (old(off) <= len(msg) ==> off <= len(msg))
 //@   loop 1 decreases len(msg) - off
 
-//@ func unpackIPSECGateway [C01 C02]
+//@ func unpackIPSECGateway [C01 C02 C20]
 //@   requires 0 <= off
+// the gateway is decoded according to the type the caller passes, as it stands (the caller masks what it must): for a
+// type other than 1, 2 and 3 there is no gateway field
+//@   ensures sel: ret3 == nil && gatewayType != 1 && gatewayType != 2 && gatewayType != 3 ==> ret2 == off [C01 C20]
 //@   ensures ok:   ret3 == nil ==> off <= ret2 && (off <= len(msg) ==> ret2 <= len(msg))
 //@   ensures fail: ret3 != nil ==> ret2 == len(msg)
 
@@ -418,9 +421,12 @@ package dns
 //@   ensures nonempty: ret0 == nil ==> (forall k in 0..len(s.Alpn) :: len(s.Alpn[k]) > 0) [C01 C02]
 //@   loop 1 invariant nonempty: forall k in 0..len(alpn) :: len(alpn[k]) > 0 [C01 C02]
 //@   loop 1 invariant 0 <= i
-//@ func (*SVCBIPv4Hint).unpack
+// an address hint without addresses is not a value (pack and the parser refuse it too)
+//@ func (*SVCBIPv4Hint).unpack [C01 C02 C20]
+//@   ensures empty: len(b) == 0 ==> ret0 != nil [C01 C20]
 //@   loop 1 invariant 0 <= i && i % 4 == 0 && len(b) % 4 == 0
-//@ func (*SVCBIPv6Hint).unpack
+//@ func (*SVCBIPv6Hint).unpack [C01 C02 C20]
+//@   ensures empty: len(b) == 0 ==> ret0 != nil [C01 C20]
 //@   loop 1 invariant 0 <= i && i % 16 == 0 && len(b) % 16 == 0
 
 // ---- packers of fixed-width fields --------------------------------------------------------------------------
